@@ -965,8 +965,8 @@ func parseHeadersFrame(fh FrameHeader, p []byte) (_ Frame, err error) {
 			return nil, err
 		}
 	}
-	if len(p)-int(padLength) <= 0 {
-		return nil, StreamError{fh.StreamID, ErrCodeProtocol, "HEADERS without fragment"}
+	if len(p)-int(padLength) < 0 {
+		return nil, StreamError{fh.StreamID, ErrCodeProtocol, "HEADERS with padding larger than the payload"}
 	}
 	hf.headerFragBuf = p[:len(p)-int(padLength)]
 	return hf, nil
